@@ -421,9 +421,9 @@ def lean_obligations(ctx):
 
 def parse_axioms(txt):
     res = {}
-    for m in re.finditer(r"'([^']+)' depends on axioms: \[([^\]]*)\]", txt, re.S):
+    for m in re.finditer(r"'([^\s]+?)' depends on axioms: \[([^\]]*)\]", txt, re.S):
         res[m.group(1)] = [a.strip() for a in m.group(2).replace("\n", " ").split(",") if a.strip()]
-    for m in re.finditer(r"'([^']+)' does not depend on any axioms", txt):
+    for m in re.finditer(r"'([^\s]+?)' does not depend on any axioms", txt):
         res[m.group(1)] = []
     return res
 
@@ -439,6 +439,7 @@ def run_side(exe, cases, env=None, timeout_per_batch=300, sanitizer=False, cwd=N
        Returns list (per case) of output line lists."""
     results = [None] * len(cases)
     start = 0
+    hangs = 0
     e = dict(os.environ)
     e["ASAN_OPTIONS"] = "detect_leaks=1:abort_on_error=0:exitcode=99:allocator_may_return_null=1:max_allocation_size_mb=2048"
     e["UBSAN_OPTIONS"] = "print_stacktrace=1:halt_on_error=1:exitcode=98"
@@ -481,6 +482,10 @@ def run_side(exe, cases, env=None, timeout_per_batch=300, sanitizer=False, cwd=N
             partial = []
         results[bad] = partial + ["fault " + summarize_sanitizer(err, rc)]
         start = bad + 1
+        if rc == -999:
+            hangs += 1
+            if hangs >= 3:      # a tree that hangs repeatedly: do not spend the timeout on every remaining case
+                break
     return results
 
 
